@@ -254,6 +254,28 @@ def run(ctx):
                   message=f"PatientPruner.prune cuts the reported steps at `{norm(rb)[:60]}`, not at index -(patience + 1): the window is no longer the last patience+1 reports "
                           f"(a trial reporting with gaps between its steps is pruned inside its patience window)",
                   how="slice bound is -(self._patience + 1)", where=where(pf, x))
+    # ... and the window is taken in STEP order, not in the order the reports happened to be made (or the backend returns them): what is sliced
+    # is the array of step keys after it was sorted, and the scores are looked up by those steps
+    gp_ = CFG(pf.node, name=pf.qualname)
+    for x, rb in cuts:
+        base = x.value
+        bname = base.id if isinstance(base, ast.Name) else None
+        sorted_before = False
+        if bname is not None:
+            sorts = [n for n in gp_.stmt_nodes() if any(isinstance(c.func, ast.Attribute) and c.func.attr == "sort" and norm(c.func.value) == bname for c in n.calls())]
+            sorted_defs = [n for n in gp_.stmt_nodes() if n.kind == "stmt" and isinstance(n.ast, ast.Assign) and any(isinstance(t, ast.Name) and t.id == bname for t in n.ast.targets)
+                           and any(isinstance(c, ast.Call) and (dotted(c.func) or "") in ("sorted", "np.sort", "numpy.sort") for c in ast.walk(n.ast.value))]
+            use = [n for n in gp_.stmt_nodes() if any(y is x for y in n.walk())]
+            sorted_before = bool(use) and bool(sorts + sorted_defs) and all(gp_.dominated_by(u, sorts + sorted_defs) for u in use)
+            src = resolve(ast.Name(id=bname, ctx=ast.Load()), pdefs, depth=4)
+            of_steps = ".keys()" in norm(src) or "sorted(" in norm(src)
+        else:
+            of_steps = False
+        ctx.check(sorted_before and of_steps, "R16.2", pf.short, f"patience-window-in-step-order:{norm(x)[:40]}",
+                  message=f"PatientPruner.prune cuts its patience window out of `{norm(base)[:40]}`, which is not the sorted array of reported step numbers: the window then "
+                          f"follows the order in which the values were reported (or the order the storage hands them back) instead of the step order - a trial that reports "
+                          f"out of increasing step order is pruned inside its patience window",
+                  how="steps = array of intermediate_values.keys(); steps.sort() before both slices; scores looked up by step", where=where(pf, x))
     # pruner objects keep nothing about the study they were first used with, apart from the tabled lazily computed
     # configuration: a pruner instance may serve several studies (Hyperband shares its SuccessiveHalving pruners)
     LAZY_CONFIG = {
@@ -342,6 +364,31 @@ def run(ctx):
     asg = {self_attr(t): norm(n.value) for n in own_nodes(init.node) if isinstance(n, ast.Assign) for t in n.targets if self_attr(t)}
     ctx.check(asg.get("_lower") == "lower" and asg.get("_upper") == "upper", "R16.3", init.short, "threshold-bounds-stored",
               message=f"bounds stored as {asg.get('_lower')}, {asg.get('_upper')}", how="self._lower = lower; self._upper = upper")
+    # a bound is "missing" only when it is None: a truthiness test also drops the legitimate bound 0.0 (and -0.0), after which values beyond
+    # a zero bound are no longer pruned
+    gi = CFG(init.node, name=init.qualname)
+    n_bt = 0
+    for t in gi.stmt_nodes():
+        if t.kind != "test":
+            continue
+        for x in ast.walk(t.expr):
+            bare = None
+            if isinstance(x, ast.Name) and x.id in ("lower", "upper"):
+                par_ok = False
+                for y in ast.walk(t.expr):
+                    if isinstance(y, ast.Compare) and any(z is x for z in ast.walk(y)):
+                        par_ok = True  # part of a comparison (is None / is not None / lower > upper)
+                    if isinstance(y, ast.Call) and any(z is x for z in ast.walk(y)):
+                        par_ok = True  # argument of a call
+                if not par_ok:
+                    bare = x
+            if bare is not None:
+                n_bt += 1
+                ctx.fail("R16.3", init.short, f"bound-missing-means-None:{bare.id}",
+                         f"ThresholdPruner.__init__ decides whether `{bare.id}` was given by its truth value (`{norm(t.expr)[:50]}`): the bound 0.0 counts as missing and "
+                         f"becomes an infinity, so values beyond a zero {bare.id} bound are never pruned", where=where(init, t.ast))
+    tests_on_bounds = [t for t in gi.stmt_nodes() if t.kind == "test" and any(isinstance(x, ast.Name) and x.id in ("lower", "upper") for x in ast.walk(t.expr))]
+    ctx.floor("R16.3", "tests_on_threshold_bounds", len(tests_on_bounds), 3)
 
     # ------------------------------------------------------------ R16.4 hyperband
     # successive halving: what is recorded as a trial's rung value takes part in every later trial's competition (sorted, then indexed):
